@@ -217,6 +217,11 @@ impl Scenario for HubCore {
                 v.push(bond(u, *a));
             }
             v.push(bond_st(u, self.bond_amounts[0] + 7));
+            if self.arm.c03 && *u == self.users[0] {
+                // a bond without payment must never mint
+                v.push(bond(u, 0));
+                v.push(bond_st(u, 0));
+            }
             for tok in [BSEI, STSEI] {
                 let bal = o.tok_bal(tok, u);
                 for a in sym_amounts(bal) {
@@ -747,6 +752,18 @@ fn c13_step(pre: &Chain, po: &HubObs, a: &Action, out: &Outcome, post: &Chain, q
             let bad_dst = out.fx().iter().any(|e| matches!(e, Fx::Redelegate { dst, .. } if !qo.registry.iter().any(|x| x == dst)));
             if moved != had || post.delegation(HUB, &v) != 0 || bad_dst {
                 cx.viol("C13.redelegate", "Redelegations did not move the whole stake of the unregistered validator to registered ones", format!("{}: had {} moved {} left {}", a.label, had, moved, post.delegation(HUB, &v)));
+            }
+        }
+        return;
+    }
+    if out.ok() && (a.is(HUB, "bond") || a.is(HUB, "bond_for_st_sei")) {
+        // subsequent bonds are delegated only to registered validators
+        cx.trigger("c13_bond_targets_checked");
+        for e in out.fx() {
+            if let Fx::Delegate { val, .. } = e {
+                if !qo.registry.iter().any(|r| r == val) {
+                    cx.viol("C13.bond_targets", "a bond was delegated to a validator that is not registered", format!("{}: {} not in {:?}", a.label, val, qo.registry));
+                }
             }
         }
         return;
